@@ -53,6 +53,16 @@ pub fn canonical(v: &Num, r: &RefRat, sig: &str, what: &dyn Fn() -> String) -> C
     Ok(())
 }
 
+/// another API form of the operation that produced `main` must give the very same number (compared without rendering)
+fn same_form(alt: &Num, main: &Num, sig: &str, what: &dyn Fn() -> String) -> CheckResult {
+    ensure!(alt.is_nan() == main.is_nan(), sig, "{}: is_nan()={} but the operator form gives {}", what(), alt.is_nan(), main);
+    if !main.is_nan() {
+        ensure!(alt == main && main == alt, sig, "{}: gives {} but the operator form gives {}", what(), alt, main);
+    }
+    ensure!(alt.is_pos() == main.is_pos(), sig, "{}: is_pos()={} but the operator form gives {}", what(), alt.is_pos(), main);
+    Ok(())
+}
+
 /// evaluate both sides bottom-up, checking every intermediate value
 fn eval_check(e: &Expr, st: &mut Stats) -> Result<(Num, RefRat), Failure> {
     let (v, r, sig): (Num, RefRat, &str) = match e {
@@ -61,7 +71,9 @@ fn eval_check(e: &Expr, st: &mut Stats) -> Result<(Num, RefRat), Failure> {
             let (va, ra) = eval_check(a, st)?;
             let (vb, rb) = eval_check(b, st)?;
             note_nan(st, "add", &ra, &rb);
-            (&va + &vb, ra.add(&rb), "c06:add")
+            let main = &va + &vb;
+            same_form(&Num::add(&va, &vb), &main, "c06:add-fn", &|| format!("Num::add({}, {})", ra.text(), rb.text()))?;
+            (main, ra.add(&rb), "c06:add")
         }
         Expr::AddAssign(a, b) => {
             let (mut va, ra) = eval_check(a, st)?;
@@ -74,7 +86,9 @@ fn eval_check(e: &Expr, st: &mut Stats) -> Result<(Num, RefRat), Failure> {
             let (va, ra) = eval_check(a, st)?;
             let (vb, rb) = eval_check(b, st)?;
             note_nan(st, "mul", &ra, &rb);
-            (&va * &vb, ra.mul(&rb), "c06:mul")
+            let main = &va * &vb;
+            same_form(&Num::mul(&va, &vb), &main, "c06:mul-fn", &|| format!("Num::mul({}, {})", ra.text(), rb.text()))?;
+            (main, ra.mul(&rb), "c06:mul")
         }
         Expr::MulAssign(a, b) => {
             let (mut va, ra) = eval_check(a, st)?;
@@ -88,7 +102,9 @@ fn eval_check(e: &Expr, st: &mut Stats) -> Result<(Num, RefRat), Failure> {
             if ra.is_nan() {
                 st.class("nan:neg(NaN)");
             }
-            (-&va, ra.neg(), "c06:neg")
+            let main = -&va;
+            same_form(&Num::neg(&va), &main, "c06:neg-fn", &|| format!("Num::neg({})", ra.text()))?;
+            (main, ra.neg(), "c06:neg")
         }
         Expr::Minus(a) => {
             let (mut va, ra) = eval_check(a, st)?;
@@ -109,6 +125,13 @@ fn eval_check(e: &Expr, st: &mut Stats) -> Result<(Num, RefRat), Failure> {
         }
     };
     canonical(&v, &r, sig, &|| format!("{} node with value {}", sig, r.text()))?;
+    // the two assignment helpers the in-place operators are built on
+    let mut x = Num::one();
+    x.set_copy(&v);
+    same_form(&x, &v, "c06:set_copy", &|| format!("set_copy({})", r.text()))?;
+    let mut y = Num::nan();
+    y.set_move(v.clone());
+    same_form(&y, &v, "c06:set_move", &|| format!("set_move({})", r.text()))?;
     Ok((v, r))
 }
 
